@@ -136,8 +136,19 @@ RT = [0, 2, 3, 4]      # run-time-speed configurations: back, back11, backmp11 f
 def C08(tier, seed):
     chk = Check('C08', tier, seed)
     be = [0, 2, 3] + ([4] if tier == 'thorough' else [])
+    # abstract state = active ids + last-active ids of the exited submachine (kept even without history: a no-history or
+    # shallow-history re-entry must not depend on them).  quick: every configuration outside the submachine (where the
+    # entering events act) plus the first few inside; thorough: all (~170 per machine)
+    seen = {}
+    def flt(c):
+        if not c.started: return False
+        if tier == 'thorough': return True
+        n = seen.setdefault(id(c.prog), [0])
+        if c.m[c.prog.root.name]['active'][0] == 'A': return True
+        n[0] += 1
+        return n[0] <= 6
     oracle_units(chk, ['HIn', 'HIa', 'HIs'], be, 'C08', proj=('A', 'E', 'X', 'G'), check_result=False,
-                 bfs_depth=7, max_confs=40)
+                 bfs_depth=8, max_confs=400, conf_filter=flt)
     return chk
 
 
@@ -218,4 +229,36 @@ def C03(tier, seed):
     return chk
 
 
-PROPS = {f.__name__: f for f in (C01, C02, C03, C06, C07, C08, C09, C10, C11, C13, C17)}
+BP_TYPES = {0: 'Triv<1> (5 bytes)', 1: 'Triv<44>', 2: 'Triv<52> (56 bytes: fills the inline buffer)', 3: 'Triv<53> (60 bytes: heap)',
+            4: 'TrivA<8,16> (alignment 16: heap)', 5: 'TrivA<40,64> (alignment 64: heap)', 6: 'Triv<196> (200 bytes: heap)',
+            7: 'NonTriv inline (user copy/move/dtor, self pointer)', 8: 'NonTriv 100 bytes (heap)', 9: 'ThrowMove (move not noexcept: heap)'}
+BP_PRE = ['EEE', 'LEE', 'LLE', 'LLL', 'MLE', 'MLL', 'LML']
+
+
+def C20(tier, seed):
+    chk = Check('C20', tier, seed)
+    if tier == 'thorough':
+        pairs = [(a, b) for a in range(10) for b in range(10) if a <= b or (a in (7, 8, 9))]
+        pres = range(7)
+    else:
+        pairs = [(7, 3), (3, 7), (0, 8), (8, 2), (9, 7), (2, 9), (6, 7), (7, 7), (4, 0), (5, 8)]
+        pres = [1, 2, 3, 4, 5, 6]
+    variants = []; labels = []
+    for (a, b) in pairs:
+        for pre in pres:
+            variants.append(['-DPRE=%d' % pre, '-DT0=%d' % a, '-DT1=%d' % b])
+            labels.append('slots %s; slot0 type %s; slots1,2 type %s' % (BP_PRE[pre], BP_TYPES[a], BP_TYPES[b]))
+    u = runner.KernelUnit('C20_basic_polymorphic', runner.VERIF + '/kernels/bp.cpp', runner.VERIF + '/kernels/bp_harness.c', 'harness_bp',
+                          variants, labels, unwind=12, extra_cbmc=['--memory-leak-check'])
+    chk.add_unit(u)
+    for h in range(len(variants)): chk.jobs.append(Job(u, h, unwind=12, timeout=300))
+    chk.bounds.update({'kernel': 'basic_polymorphic<B,56,8>: make / copy-construct / move-construct / copy-assign / move-assign (incl. self) / destroy',
+                       'pre_states': [BP_PRE[p] for p in pres], 'type_pairs': len(pairs), 'symbolic': 'operation, both slot indices, which of the two types is made, 32-bit value; values of the pre-state objects',
+                       'unwind': 12})
+    chk.assumptions += ['C20 kernel: only the run-time selection paths of basic_polymorphic are exercised (10 payload types: sizes 5..200 bytes, alignment 4..64, trivially copyable / user copy+move+dtor / non-noexcept move)',
+                        'copying or moving FROM a moved-from or empty value is outside the harness (not an operation the event pool performs)',
+                        'cbmc --memory-leak-check plus the built-in pointer/deallocation checks stand for "no freed / out-of-bounds memory read"; alignment of the heap block is not decided (no addresses in CBMC)']
+    return chk
+
+
+PROPS = {f.__name__: f for f in (C01, C02, C03, C06, C07, C08, C09, C10, C11, C13, C17, C20)}
